@@ -432,7 +432,7 @@ func breakerRule(c *Ctx, rule string) {
 			return
 		}
 		a := m.Sym.Of(st.Addr).String()
-		gs := m.AllGuards(in, false)
+		gs := m.unitGuardsSubst(callFn, in)
 		errLit := "?"
 		for _, l := range gs {
 			if l.S.Op == "bin" && l.S.Name == "==" && symMentions(l.S, "nil") && symMentions(l.S, "callv") {
@@ -751,29 +751,47 @@ func retryLoopRule(c *Ctx, rule string) {
 			}
 		}
 		c.check(start == 0 && step == 1 && len(counter.Edges) == 2, rule, "attempt counter starts at 0 and advances by one per retry", counter, "start %d, step %d, %d reaching definitions", start, step, len(counter.Edges))
-		// max attempts: MaxAttempts > 0 && attempt >= MaxAttempts-1 ends the loop before the wait
+		// max attempts: with MaxAttempts > 0 and attempt >= MaxAttempts-1 no further invocation is
+		// reachable from an invocation (the comparison is identified as a value, wherever the body
+		// was split, and the paths are explored under the assumption that it holds)
 		nMax := 0
+		var cmpPos []ssa.Value
 		eachUnit(func(in ssa.Instruction) {
-			ifi, ok := in.(*ssa.If)
+			bo, ok := in.(*ssa.BinOp)
 			if !ok {
 				return
 			}
-			l := m.litOf(ifi.Cond, true, ifi)
-			if l.S.Op == "bin" && l.S.Name == "<=" && strings.HasSuffix(l.S.Args[0].String(), ".MaxAttempts - 1)") && l.S.Args[1].V == ssa.Value(counter) {
-				nMax++
-				gs := m.Guards(in.Block())
-				pos := hasLit(gs, true, func(s *Sym) bool { return s.Op == "bin" && s.Name == "<" && s.Args[0].String() == "0" && strings.HasSuffix(s.Args[1].String(), ".MaxAttempts") })
-				edge := map[bool]int{true: 0, false: 1}[l.Truth]
-				var hit ssa.Instruction
-				m.explore(in.Block(), edge, 0, func(x ssa.Instruction, flag int) (int, bool) {
-					if isInvocation(x) {
-						hit = x
-						return flag, true
-					}
-					return flag, false
-				}, nil)
-				c.check(pos && hit == nil, rule, "at most MaxAttempts invocations (0 = unbounded)", in, "test %s under MaxAttempts > 0: %v; an invocation is reachable from its true edge: %v", l, pos, hit != nil)
+			l := m.litOf(bo, true, nil)
+			if l.Truth && l.S.V != nil && l.S.Op == "bin" && l.S.Name == "<" && l.S.Args[0].String() == "0" && strings.HasSuffix(l.S.Args[1].String(), ".MaxAttempts") {
+				cmpPos = append(cmpPos, l.S.V)
 			}
+		})
+		eachUnit(func(in ssa.Instruction) {
+			bo, ok := in.(*ssa.BinOp)
+			if !ok {
+				return
+			}
+			l := m.litOf(bo, true, nil)
+			if !(l.Truth && l.S.V != nil && l.S.Op == "bin" && l.S.Name == "<=" && strings.HasSuffix(l.S.Args[0].String(), ".MaxAttempts - 1)") && l.S.Args[1].V != nil && m.traceValue(l.S.Args[1].V) == ssa.Value(counter)) {
+				return
+			}
+			nMax++
+			// evaluated only under MaxAttempts > 0 (0 = unbounded)
+			gs := m.unitGuards(rb, in)
+			pos := hasLit(gs, true, func(s *Sym) bool { return s.Op == "bin" && s.Name == "<" && s.Args[0].String() == "0" && strings.HasSuffix(s.Args[1].String(), ".MaxAttempts") })
+			assume := map[ssa.Value]bool{l.S.V: true}
+			for _, v := range cmpPos {
+				assume[v] = true
+			}
+			var hit ssa.Instruction
+			m.descend = func(g *ssa.Function) bool { return containsFn(unit, g) }
+			for _, iv := range invocations {
+				if h := reaches(iv, assume); h != nil && hit == nil {
+					hit = h
+				}
+			}
+			m.descend = nil
+			c.check(pos && hit == nil, rule, "at most MaxAttempts invocations (0 = unbounded)", in, "test %s is evaluated under MaxAttempts > 0: %v; with it true another invocation is reachable from an invocation: %v (%s)", l, pos, hit != nil, c.posOf(hit))
 		})
 		if nMax == 0 {
 			c.viol(rule, "at most MaxAttempts invocations (0 = unbounded)", firstInstr(rb), "no test `attempt >= cfg.MaxAttempts-1` on the loop counter found")
